@@ -457,6 +457,62 @@ seeded C15) -/
 example : ((genBridgeAll [⟨"a", "1"⟩, ⟨"a", "2"⟩, ⟨"a", "3"⟩]).run { regOf := [], bridged := [] }).toOption.map
     (fun r => (r.2.isBridged 1 2, r.2.isBridged 2 1, r.2.isBridged 0 2)) = some (true, true, true) := by decide
 
+/-! ### `TestGraph.flag_intersection` (graph.py) against `flagIntersection`
+
+The loop `for test_node in self.nodes:` is matched structurally, its body is translated (`genFlagIntersectionStep`:
+the match list is the atom `otherNames.filter (endsWithStr · setless)`, `len(…) == 0` / `> 1`, the two skip tests and
+the `flag_type == "run"` choice are translated, the two attribute stores are pinned to `Flags.set`). -/
+
+/-- the body of the loop of the hand model `flagIntersection` (its anonymous step function, named) -/
+def fiStep (g : UGraph) (otherNames : List String) (ty : FlagType) (p : Pol) (skipObjectRoots skipSharedRoot : Bool)
+    (f : Flags) (i : Nat) : Except Err Flags :=
+  let nd := g.node i
+  match otherNames.filter (fun nm => endsWithStr nm nd.setless) with
+  | [] => .ok f
+  | [_] => if (nd.sharedRoot && skipSharedRoot) || (!nd.objectRoot.isEmpty && skipObjectRoots) then .ok f
+           else .ok (f.set ty p i)
+  | _ :: _ :: _ => .error .valueError
+
+theorem flagIntersection_eq_foldlM (g : UGraph) (fl : Flags) (otherNames : List String) (ty : FlagType) (p : Pol)
+    (so ss : Bool) :
+    flagIntersection g fl otherNames ty p so ss = (List.range g.nodes.length).foldlM (fiStep g otherNames ty p so ss) fl :=
+  rfl
+
+/-- **one iteration of `TestGraph.flag_intersection`** (regenerated from graph.py) is the step of the hand model: no match
+⇒ untouched, several ⇒ `ValueError`, one ⇒ the policy unless a skipped root; in this order.  No hypotheses. -/
+theorem flagIntersectionStep_matches_source (g : UGraph) (otherNames : List String) (ty : FlagType) (p : Pol)
+    (so ss : Bool) (i : Nat) :
+    genFlagIntersectionStep g otherNames ty p so ss i = stepM (fun f => fiStep g otherNames ty p so ss f i) := by
+  funext f
+  unfold genFlagIntersectionStep fiStep stepM
+  simp only []
+  generalize otherNames.filter (fun nm => endsWithStr nm (g.node i).setless) = l
+  cases l with
+  | nil => simp [bind, StateT.bind, pure, StateT.pure, Except.pure, Except.map, Except.bind]
+  | cons a r =>
+    cases r with
+    | nil =>
+      cases ty <;> cases h1 : (g.node i).sharedRoot <;> cases ss <;> cases h2 : (g.node i).objectRoot.isEmpty <;>
+        cases so <;>
+        simp [bind, StateT.bind, pure, StateT.pure, Except.pure, Except.map, Except.bind, flagTypeStr, modify, modifyGet,
+          MonadStateOf.modifyGet, StateT.modifyGet, h1, h2]
+    | cons b r' =>
+      have h0 : ¬ ((r'.length : Int) + 1 + 1 = 0) := by omega
+      have h1 : (1 : Int) < (r'.length : Int) + 1 + 1 := by omega
+      simp [bind, StateT.bind, pure, StateT.pure, Except.pure, Except.map, Except.bind, throw, throwThe,
+        MonadExceptOf.throw, StateT.lift, h0, h1]
+
+/-- **`TestGraph.flag_intersection` IS `flagIntersection`**: the regenerated loop over the graph's nodes ends with the
+policy table of the hand model or raises the same error — any graph, any other graph, both flag types. -/
+theorem flagIntersection_matches_source (g : UGraph) (fl : Flags) (otherNames : List String) (ty : FlagType) (p : Pol)
+    (so ss : Bool) :
+    (genFlagIntersection g otherNames ty p so ss).run fl =
+      (flagIntersection g fl otherNames ty p so ss).map (fun f => ((), f)) := by
+  rw [flagIntersection_eq_foldlM]
+  unfold genFlagIntersection
+  simp only [flagIntersectionStep_matches_source]
+  exact forM_stepM (fun f i => fiStep g otherNames ty p so ss f i) (List.range g.nodes.length) fl
+
 end MatchesSource
 
 end I2N.Props.C15
